@@ -283,13 +283,19 @@ func (hp *HPACK) Next(hf *HeaderField, b []byte) ([]byte, error) {
 // appear. A CONTINUATION carries on a block rather than starting one.
 func (hp *HPACK) nextField(hf *HeaderField, blockStart bool, fieldsProcessed int, b []byte) ([]byte, error) {
 	var (
-		n   uint64
-		c   byte
-		err error
+		n       uint64
+		c       byte
+		err     error
+		updated bool
 	)
 
 loop:
 	if len(b) == 0 {
+		if updated {
+			// The block ended in a size update: nothing was written to hf.
+			return b, ErrNoField
+		}
+
 		return b, nil
 	}
 
@@ -449,6 +455,8 @@ loop:
 		hp.maxTableSize = uint32(n)
 		hp.shrink()
 
+		updated = true
+
 		goto loop
 	}
 
@@ -570,6 +578,10 @@ var (
 	ErrIntOverflow               = errors.New("integer in the header block does not fit in 64 bits")
 	ErrDynamicUpdate             = errors.New("dynamic update received after the first header block")
 	ErrDynamicUpdateMaxTableSize = errors.New("dynamic update is over the max table")
+	// ErrNoField is returned by Next when the header block ends after a
+	// dynamic table size update: the block is valid and has been consumed, but
+	// there is no field in hf. It ends the caller's loop, it is not a failure.
+	ErrNoField = errors.New("hpack: header block ended without another field")
 )
 
 // appendString writes bytes slice to dst and returns it.
